@@ -12,6 +12,7 @@ from ..caseval import Ev
 from .lie_common import lib_call
 
 SHARDS = {"quick": 8, "thorough": 16}
+REQUIRED_REACH = ['Bezier.eval', 'Bezier.deriv', 'derive_bezier7', 'derive_bezier3', 'derive_multirotor']
 RULE = ("curve degree n = 1..10, dimension 1..4, control points log-uniform with mixed signs, durations T in [0.05, 50], times inside "
         "[0,T], at 0 and T exactly, and outside (-T..2T); derivative orders 0..n; reference = Bernstein polynomial expanded and "
         "differentiated exactly in fractions.Fraction on the very doubles handed to the library; solvers: random boundary vectors "
